@@ -168,6 +168,11 @@ impl Tokenizer
 				error!("too many lines");
 				return Err(Box::new(lang::Error::Syntax));
 			}
+			// nor does it read past 64K
+			if self.tokenized_program.len() > 0xffff {
+				error!("program too large");
+				return Err(Box::new(lang::Error::Syntax));
+			}
 		}
 		Ok(self.tokenized_program.clone())
 	}
